@@ -8,7 +8,7 @@
    failing reconnects and Close at any point; `starts` = lazy or (successful) eager construction. *)
 From Coq Require Import List Arith Bool.
 Import ListNotations.
-From Hy Require Import gen.ParamsC16 model.C16_Reconnect proof.C16_Reconnect.
+From Hy Require Import gen.ParamsC16 model.C16_Reconnect proof.C16_Reconnect model.C16_Split proof.C16_Split.
 
 (* Census.  In every state of every run (in particular at every quiescent point) every open factory
    socket is the current client's: at most one is open, and every superseded (or never adopted)
@@ -134,3 +134,21 @@ Theorem C16_at_most_one_socket_old_refuted :
   exists tr s, run false init0 tr = Some s /\ quiescent s = true /\ open_sids s = [0; 1].
 Proof. exact old_refuted. Qed.
 Print Assumptions C16_at_most_one_socket_old_refuted.
+
+(* Why Enter, with the whole reconnect() in it, is ONE action above (reconnect.go keeps rc.m from the
+   rc.closed / rc.client == nil decisions to the assignment of the new client).  In the variant that
+   leaves the mutex while configFunc runs and takes it again before NewClient (model/C16_Split.v):
+   (1) a second caller that arrives during the config evaluation also reconnects; both connections
+       are built, the later assignment overwrites the earlier client without closing it: two factory
+       sockets open at a quiescent point, count 2 for one logical connect, no Close called;
+   (2) a Close that arrives during the config evaluation finds no client; the connection is built
+       afterwards: a socket is created and stays open after Close.
+   The correspondence check (corr/C16_Corr.v group) therefore rejects every boundary log in which
+   the events of one locked section are not contiguous. *)
+Theorem C16_unlocked_config_refuted :
+  (exists s, run2 init2 split_witness_two = Some s /\ incfg s = [] /\ quiescent (base s) = true /\
+             open_sids (base s) = [0; 1] /\ count (base s) = 2 /\ nclose (base s) = 0) /\
+  (exists s, run2 init2 split_witness_close = Some s /\ incfg s = [] /\ quiescent (base s) = true /\
+             closed (base s) = true /\ open_sids (base s) = [0] /\ nnew (base s) = 1).
+Proof. exact split_refuted. Qed.
+Print Assumptions C16_unlocked_config_refuted.
